@@ -62,10 +62,10 @@ func expandFns(P *core.Program, pat string) string {
 }
 
 const (
-	rpcMutateRow = "(*server).MutateRow"
+	rpcMutateRow  = "(*server).MutateRow"
 	rpcMutateRows = "(*server).MutateRows"
-	rpcCAM = "(*server).CheckAndMutateRow"
-	rpcRMW = "(*server).ReadModifyWriteRow"
+	rpcCAM        = "(*server).CheckAndMutateRow"
+	rpcRMW        = "(*server).ReadModifyWriteRow"
 )
 
 var bt = []string{"bigtable"}
@@ -90,7 +90,7 @@ func init() {
 			Only(R07(), fns(rpcMutateRow, rpcMutateRows)),
 		},
 		Explanation: "Decides the structural part of C01. (1) Invalid requests are answered with an error instead of being stored: every cell insertion / range deletion in applyMutations is dominated by the family-known and timestamp-valid guards on the very values used (R08), the unknown-mutation default returns an error, and a row that went through the applier is written to the store only on the applier's nil edge (R06), with no application-error return reachable after a store (R07). (2) Every writer of Column.Cells re-establishes 'descending timestamps, one cell per timestamp', comparator and sort.Search predicates agree on the direction, families/columns are only constructed after a failed lookup (R28).",
-		NotDecided: []string{"that the values read equal the data model (last-value-wins, server timestamps, exact boundary of a delete range): needs execution"},
+		NotDecided:  []string{"that the values read equal the data model (last-value-wins, server timestamps, exact boundary of a delete range): needs execution"},
 		Assumptions: commonAssumptions,
 	}
 	Properties["C02"] = &PropertySpec{
@@ -106,19 +106,20 @@ func init() {
 			Only(R04(), fns("(*GcsEmu).handleGcsNewObjectResume")),
 		},
 		Explanation: "Decides: (i) an upload whose declared MD5 mismatches is rejected before the critical section containing Store.Add (R08: the Add call is dominated by the passing edge of the MD5 comparison whenever an MD5 was declared); (ii) every upload protocol funnels through the one verified write: Store.Add is called only from finishUpload, finishCompose and the stores' own Copy (R29 who-may-call), and both HTTP entry points are registered wrapped in DrainRequestHandler(GzipRequestHandler(h)) (R29); (iii) the write and the metadata read-back happen in the object's critical section after the precondition check (R11), the pending resumable upload is only touched under its mutex (R01/R04), and no maybe-nil store result is dereferenced on the upload path (R16).",
-		NotDecided: []string{"byte-for-byte equality of served content, chunk reassembly arithmetic, multipart parsing, content type: runtime values"},
+		NotDecided:  []string{"byte-for-byte equality of served content, chunk reassembly arithmetic, multipart parsing, content type: runtime values"},
 		Assumptions: commonAssumptions,
 	}
 	Properties["C03"] = &PropertySpec{
 		Modules: bt,
 		Rules: []Rule{
+			Only(R43(), fns("(*server).ReadRows")),
 			Only(R09(), `^I1/`, `^I2/`, `^I5/`),
 			R08(Only8("ReadRows")),
 			R26(),
 			Only(R14(3, core.PkgBttest), fns("(*chunkBuilder).add")),
 		},
 		Explanation: "Decides: an inverted range is rejected before any scan (R08: validateRowRanges' nil edge dominates every Rows.Ascend* in ReadRows; its error is an InvalidArgument status); every engine honours early stop and puts the range bounds into the right backend slots, the dispatch in ReadRows puts range starts only into lower-bound and range ends only into upper-bound parameters, both engines order by bytewise key (R09 I1/I2/I5); rows_limit counts rows that produced output (R26a: the 'added' result is not constant); the commit flag is set on the last chunk under a length guard (R14).",
-		NotDecided: []string{"set-union semantics of range merging, the 0x00 successor encoding of open/closed bounds, SampleRowKeys offsets: data dependent"},
+		NotDecided:  []string{"set-union semantics of range merging, the 0x00 successor encoding of open/closed bounds, SampleRowKeys offsets: data dependent"},
 		Assumptions: commonAssumptions,
 	}
 	Properties["C04"] = &PropertySpec{
@@ -129,7 +130,7 @@ func init() {
 			Only(R17(), `^\(\*GcsEmu\)\.Handler/`),
 		},
 		Explanation: "Decides: check-then-act in one critical section — every mutating Store call sits in the closure run under lockName(sameBucket, sameName), after Store.GetMeta of that object and on the success edge of validateConds(thatObject, theRequest'sConditions) (R11, 7 sites); what parseConds writes validateConds reads, every failure branch of validateConds returns 412 for match-kind and 304 for not-match-kind conditions, the nil-object branch passes only for the empty / does-not-exist condition sets, the conditions parsed in Handler reach validateConds on every mutating path including the resumable hand-over through uploadData.Conds and compose's per-source generation match, httpStatusCodeOf returns the code stored by fmtErrorfCode (R12); an unparsable condition is answered 400 followed by return (R17).",
-		NotDecided: []string{"the iff of the whole truth table as a function of runtime values (comparison polarity is checked structurally only for the match/not-match → 412/304 pairing)", "response bodies"},
+		NotDecided:  []string{"the iff of the whole truth table as a function of runtime values (comparison polarity is checked structurally only for the match/not-match → 412/304 pairing)", "response bodies"},
 		Assumptions: commonAssumptions,
 	}
 	Properties["C05"] = &PropertySpec{
@@ -144,7 +145,7 @@ func init() {
 			R08(Only8("ReadRows-filter-error")),
 		},
 		Explanation: "Decides: every supported filter kind has a handling case in filterRow/includeCell/modifyCell and every rejection is an InvalidArgument status, each argument the property calls invalid has an error return controlled by a test of that argument (R18); request integers are sign-checked before they bound a slice (R13); interleave branches and the condition predicate are evaluated on copies (R19); the cells-per-row-offset arithmetic does not subtract a statically-zero length (R26b); a filter error raised in the scan callback stops the iteration in every engine and is the value ReadRows returns (R09-I1, R08).",
-		NotDecided: []string{"regex semantics, range end inclusivity, chain composition, cell-level results: values"},
+		NotDecided:  []string{"regex semantics, range end inclusivity, chain composition, cell-level results: values"},
 		Assumptions: commonAssumptions,
 	}
 	Properties["C06"] = &PropertySpec{
@@ -160,7 +161,7 @@ func init() {
 			R19(Only19("cam")),
 		},
 		Explanation: "Decides the three mechanisms C06 rests on. (i) Every access to table.rows anywhere holds table.mu in the mode the method needs, and in the four single-row write RPCs the row is fetched and written back under one uninterrupted write hold (R01 lockset on all paths, R02 epoch continuity, R04 balance). (ii) Rows.Get and the iterator hand out private deserialised copies and the store keeps private serialisations in both engines (R09-I4), so nothing is visible before the write-back. (iii) The write-back happens only on the applier's success edge and no application error is returned after it (R06, R07). Per-row linearizability then follows from the mutex.",
-		NotDecided: []string{"the values written; fairness; history-level linearizability is implied by, not checked beyond, the lock discipline"},
+		NotDecided:  []string{"the values written; fairness; history-level linearizability is implied by, not checked beyond, the lock discipline"},
 		Assumptions: commonAssumptions,
 	}
 	Properties["C07"] = &PropertySpec{
@@ -176,7 +177,7 @@ func init() {
 			Only(R16(5, core.PkgGcsemu, core.PkgGcsutil), fns("(*GcsEmu).finishUpload", "(*GcsEmu).handleGcsNewObject", "(*GcsEmu).handleGcsNewObjectResume", "(*GcsEmu).handleGcsCopy", "(*GcsEmu).handleGcsUpdateMetadataRequest", "(*GcsEmu).handleGcsCompose", "(*GcsEmu).finishCompose", "(*GcsEmu).handleGcsDelete")),
 		},
 		Explanation: "Decides: every mutating Store call is inside the per-object critical section keyed on exactly the (bucket, name) it mutates, with the precondition check in the same section (R11); the lock map really excludes (R20 L2–L10); the memory store's maps and btrees are only touched under their mutexes (R01/R04); objects obtained from a store are never mutated in place — the patch decodes into a deep-fresh copy (R10); values read after a critical section ended are nil-checked (R16).",
-		NotDecided: []string{"read consistency of the file store (Get = stat + sidecar + content without the object lock; Add = three file operations): recorded as a known finding", "history-level serialisability beyond the lock discipline"},
+		NotDecided:  []string{"read consistency of the file store (Get = stat + sidecar + content without the object lock; Add = three file operations): recorded as a known finding", "history-level serialisability beyond the lock discipline"},
 		Assumptions: commonAssumptions,
 	}
 	Properties["C08"] = &PropertySpec{
@@ -186,7 +187,7 @@ func init() {
 			Only(R01(nil), `/table\.rows/call (Clear|Close)`),
 		},
 		Explanation: "Decides: table metadata is replaced atomically (the final path is only ever the target of os.Rename from a temp file written earlier on the same path, R21-D1); every RPC that mutates the table definition persists it afterwards, Create persists it (D2); DeleteTable reaches a storage-level removal of the persisted metadata (D3); start-up registers newTable(t, Open(t)) for every GetTables element before serving and cbtemulator passes -dir as LeveldbDiskStorage.Root (D4); each single-row write is exactly one backend Put or Delete (D5); Clear/Close swap the backend under the table write lock (R01).",
-		NotDecided: []string{"leveldb journal/recovery, interrupted RemoveAll, fsync behaviour, multi-write requests under a crash: crash points and file-system semantics are runtime quantities"},
+		NotDecided:  []string{"leveldb journal/recovery, interrupted RemoveAll, fsync behaviour, multi-write requests under a crash: crash points and file-system semantics are runtime quantities"},
 		Assumptions: commonAssumptions,
 	}
 	Properties["C09"] = &PropertySpec{
@@ -196,7 +197,7 @@ func init() {
 			R27(),
 		},
 		Explanation: "Decides sibling agreement of the two stores: both Add implementations set Metageneration=1 after any caller value, both UpdateMeta store the metagen parameter and never write content, both Copy clear TimeCreated and go through their own Add, filestore.Add writes content and sidecar, filestore.Delete removes both, filestore.ReadMeta tolerates a missing sidecar, missing bucket/object are signalled alike (R22); gcsemulator passes -dir to NewFileStore; both Walk implementations must deliver the ascending bytewise order of full names that the listing code assumes (R27).",
-		NotDecided: []string{"equality of responses and persistence across instances (file contents): runtime values"},
+		NotDecided:  []string{"equality of responses and persistence across instances (file contents): runtime values"},
 		Assumptions: commonAssumptions,
 	}
 	Properties["C10"] = &PropertySpec{
@@ -208,7 +209,7 @@ func init() {
 			Only(R11(), `/check-then-act`),
 		},
 		Explanation: "Decides: metageneration is 1 after every content write and cannot be overridden by the caller (the store's assignment post-dominates, both stores, R22); a patch stores old.Metageneration+1 with old read in the same critical section, and re-assigns generation and md5Hash from the pre-decode object after decoding the body (R23); read-only store methods write no record field and call no file-writing function (R22 effect sets); failed preconditions reach no mutator (R11); the X-Goog-Generation/Metageneration headers are formatted from the same object that is sent as the body (R24).",
-		NotDecided: []string{"generation strictly greater than every earlier one: both stores take wall-clock nanoseconds / file mtime and never compare with the previous generation — depends on clock and file-system timestamp granularity (runtime)"},
+		NotDecided:  []string{"generation strictly greater than every earlier one: both stores take wall-clock nanoseconds / file mtime and never compare with the previous generation — depends on clock and file-system timestamp granularity (runtime)"},
 		Assumptions: commonAssumptions,
 	}
 	Properties["C11"] = &PropertySpec{
@@ -221,7 +222,7 @@ func init() {
 			Only(R39(), fns("(*GcsEmu).makeBucketListResults")),
 		},
 		Explanation: "Decides (narrow): a malformed page token or maxResults is answered 400 and a missing bucket 404, each followed by return (R17); token encoder and decoder use the same alphabet and message field (R27); the enumeration order the cursor logic relies on must come from an ordered container keyed by the full name (R27 ordering contract); items resolved after the walk are nil-checked before use (R16/R14).",
-		NotDecided: []string{"completeness, duplicate-freedom, delimiter collapsing, maxResults cut-off, cursor arithmetic: all data dependent", "a page that holds only collapsed prefixes produces no nextPageToken (observed while reading; no structural rule decides it)"},
+		NotDecided:  []string{"completeness, duplicate-freedom, delimiter collapsing, maxResults cut-off, cursor arithmetic: all data dependent", "a page that holds only collapsed prefixes produces no nextPageToken (observed while reading; no structural rule decides it)"},
 		Assumptions: commonAssumptions,
 	}
 	Properties["C12"] = &PropertySpec{
@@ -234,7 +235,7 @@ func init() {
 			R30(),
 		},
 		Explanation: "Decides: the predicate is evaluated on copyRow of the stored row; the value stored in PredicateMatched is the SSA value that selects between TrueMutations and FalseMutations, with the right polarity, and the selected list is the one applied (R19); an invalid predicate or mutation reaches no store write (R06/R07); rows are mutated only through applyMutations / the read-modify-write loop in all four write RPCs (R30 who-may-mutate); read and write-back under one hold (R02).",
-		NotDecided: []string{"that match && !isEmpty(copy) equals 'yields at least one cell' (evaluator semantics)"},
+		NotDecided:  []string{"that match && !isEmpty(copy) equals 'yields at least one cell' (evaluator semantics)"},
 		Assumptions: commonAssumptions,
 	}
 	Properties["C13"] = &PropertySpec{
@@ -249,12 +250,13 @@ func init() {
 			Only(R33(), fns(rpcRMW)),
 		},
 		Explanation: "Decides the last sentence of C13: a rule naming an unknown family, or an increment on a value that is not 8 bytes long, fails the whole request and changes nothing — the family-known test dominates the cell insertion, len(prev)==8 dominates BigEndian.Uint64 (R08); all error returns precede the single ReplaceOrInsert (R07); the row edited is a private copy (R09-I4 Get) fetched and stored under one hold (R02); the newest-cell access is length-guarded (R14).",
-		NotDecided: []string{"increment/append arithmetic, timestamp arbitration, response contents: values"},
+		NotDecided:  []string{"increment/append arithmetic, timestamp arbitration, response contents: values"},
 		Assumptions: commonAssumptions,
 	}
 	Properties["C14"] = &PropertySpec{
 		Modules: bt,
 		Rules: []Rule{
+			Only(R43(), fns("(*server).DropRowRange")),
 			Only(R07(), fns(adminRPCs...)),
 			Only(R01(map[string]int{"server.tables": 17}), `/server\.tables/`, fns(adminRPCs...)),
 			Only(R04(), fns(adminRPCs...)),
@@ -265,7 +267,7 @@ func init() {
 			Only(R33(), fns("(*server).ModifyColumnFamilies")),
 		},
 		Explanation: "Decides: all modifications of a ModifyColumnFamilies request or none — no mutation of the definition, the registry or the rows lies on a path to an application-error return, in any admin RPC (R07); the table registry is only touched under server.mu and definitions only under table.mu (R01/R04); definitions never escape unlocked into responses (R05); later writes to a dropped family are rejected because applyMutations and ReadModifyWriteRow test the live definition map, not a cached copy (R08 provenance); schema changes are persisted after the last mutation (R21-D2).",
-		NotDecided: []string{"prefix arithmetic of DropRowRange; that a purge removes exactly the dropped family's cells"},
+		NotDecided:  []string{"prefix arithmetic of DropRowRange; that a purge removes exactly the dropped family's cells"},
 		Assumptions: commonAssumptions,
 	}
 	Properties["C15"] = &PropertySpec{
@@ -283,7 +285,7 @@ func init() {
 			R42(),
 		},
 		Explanation: "Decides: more than 32 sources is 400 and a missing source 404, and both change nothing — the bound check dominates every source read and the Add, every error return of finishCompose precedes its only Add (R08); sources are read and the destination written inside the destination's critical section (R11); the rewrite path split is length-checked on the value that is indexed (R14); a missing destination in the compose body and a missing source object are nil-checked (R16) and answered (R15); both stores' Copy clear TimeCreated and go through Add (R22); a copy does not share mutable metadata with its source in a way a later patch could write through (R10).",
-		NotDecided: []string{"concatenation order/content, metadata cloning details: values"},
+		NotDecided:  []string{"concatenation order/content, metadata cloning details: values"},
 		Assumptions: commonAssumptions,
 	}
 	Properties["C16"] = &PropertySpec{
@@ -296,18 +298,19 @@ func init() {
 			R08(Only8("gc")),
 		},
 		Explanation: "Decides: writes acknowledged while a pass is running are never reverted — the GC callback, which releases the table lock during the iteration, never writes back the row the iterator handed it; it re-reads under the current hold (R03/R02); the pass does not run on a table in active use — on the non-forced path both activity clocks are compared with the quiescence constant before the lock is taken, and gcloop calls gc only with force=false (R08); it does not block clients indefinitely — the callback contains a lock reversal on a bounded counter (R08); a negative max_num_versions never reaches a slice bound (R13); lock discipline of the pass (R01/R04).",
-		NotDecided: []string{"which cells a rule condemns (cut-off arithmetic, union semantics): values"},
+		NotDecided:  []string{"which cells a rule condemns (cut-off arithmetic, union semantics): values"},
 		Assumptions: commonAssumptions,
 	}
 	Properties["C17"] = &PropertySpec{
 		Modules: bt,
 		Rules: []Rule{
+			R43(),
 			R09(),
 			R31(),
 			R40(),
 		},
 		Explanation: "Decides the sibling cross-check of the Rows implementations against the contract in storage.go: early stop on a false callback result (I1), range parameters in the right backend slots and delivered to the backend (I2), synchronous iteration (I3), private copies in and out (I4), same bytewise order (I5); the three Storage implementations construct only those Rows types, and Clear leaves an empty usable store in both (R31).",
-		NotDecided: []string{"response equality on generated programs: needs execution"},
+		NotDecided:  []string{"response equality on generated programs: needs execution"},
 		Assumptions: commonAssumptions,
 	}
 	Properties["C18"] = &PropertySpec{
@@ -321,7 +324,7 @@ func init() {
 			Only(R16(5, core.PkgBttest), fns(scanFns...)),
 		},
 		Explanation: "Decides the three mechanisms C18 anchors: the scan holds table.mu (read) at every Rows access and at every use of the table definition, gives it up only around stream.Send and re-takes it on every path (R01, R04 incl. the reversal closure); it never writes a row back (R03); one backend iterator per range scan, created under the lock (R31); every row delivered is one freshly deserialised stored value, never shared with a writer, and iteration is synchronous (R09 I3/I4).",
-		NotDecided: []string{"that leveldb iterators are snapshots (library contract, trusted); order/duplicates under interleavings: histories"},
+		NotDecided:  []string{"that leveldb iterators are snapshots (library contract, trusted); order/duplicates under interleavings: histories"},
 		Assumptions: commonAssumptions,
 	}
 	Properties["C19"] = &PropertySpec{
@@ -332,7 +335,7 @@ func init() {
 			Only(R04(), fns("(*TransientLockMap).Lock", "(*TransientLockMap).Unlock", "(*TransientLockMap).returnLockObj", "(*TransientLockMap).Run")),
 		},
 		Explanation: "Decides R20 L1–L10, each a necessary condition of a clause of C19: the map and the reference counts are only touched under the map mutex (L1 = R01/R04); lookup-or-create and refcount++ in one critical section (L2) and eviction only at refcount==0 after the decrement (L9): no eviction while referenced, no leak; nothing blocks under the map mutex (L3): independent keys never block each other; Lock returns false only after giving its reference back and true only on the acquired edge (L4), countedLock.Lock returns true iff the send into the key channel was chosen (L6): false ⇒ holds nothing; Unlock releases before giving the reference back and an unheld key panics (L5, L7); Run unlocks exactly what it locked, registered before f runs (L8); the key channel has capacity 1 (L10): at most one holder.",
-		NotDecided: []string{"absence of lost wake-ups and fairness rest on Go channel semantics (trusted); exhaustive interleaving exploration is model checking, a different family"},
+		NotDecided:  []string{"absence of lost wake-ups and fairness rest on Go channel semantics (trusted); exhaustive interleaving exploration is model checking, a different family"},
 		Assumptions: commonAssumptions,
 	}
 	Properties["C20"] = &PropertySpec{
@@ -350,7 +353,7 @@ func init() {
 			R08(Only8("ReadModifyWriteRow")),
 		},
 		Explanation: "Decides the crash and wedge vectors visible in code shape, for both emulators: request integers are sign- and length-checked before they bound a slice (R13); constant indexing of variable-length parse results is length-checked on the same value (R14); maybe-nil results of store lookups, optional request sub-messages and JSON-decoded pointers are checked before dereference, interprocedurally (R16); every HTTP handler path writes a response and nothing touches the writer after an error response (R15); parse failures are answered 4xx and return (R17); shared maps and definitions are only touched under their mutexes and never escape unlocked into responses — the 'fatal runtime error / data race' clause (R01/R05); no path returns with a lock held (R04); reachable explicit panics and unchecked type assertions are confined to a reasoned table (R25); the Uint64 length precondition (R08).",
-		NotDecided: []string{"resource exhaustion, hangs inside libraries, well-formedness of every response body, batch sub-response equality"},
+		NotDecided:  []string{"resource exhaustion, hangs inside libraries, well-formedness of every response body, batch sub-response equality"},
 		Assumptions: commonAssumptions,
 	}
 }
